@@ -100,7 +100,7 @@ class Keccak(object):
             assert bitlen<=needed
             needed = bitlen
             if not self.duplexing:
-                b = Bits(M[-1:],size=needed%8)[::-1]
+                b = Bits(M[needed//8:needed//8+1],size=needed%8)[::-1]
                 M = M[:needed//8]+bytes([b.ival])
         r = self.r
         br,rr = divmod(r,8)
